@@ -391,6 +391,18 @@ def _call_ext(it, name, args, kwargs, node):
             inst.attrs["fields"] = [const_of(x)[1] for x in fl]
             inst.attrs["typename"] = tn if ok_ else "namedtuple"
             return VObj(inst)
+    if n == "functools.reduce" and len(args) >= 3 and isinstance(args[1], VGen) and isinstance(args[2], VTens) and isinstance(args[0], VExt) \
+            and args[0].name in ("torch.Tensor.add_", "torch.Tensor.sub_", "operator.iadd", "operator.isub"):
+        # a running total kept in ONE tensor that every step updates in place: the generator's loop carries that tensor like any
+        # other tensor it mutates
+        acc = args[2]
+        mname = "add_" if args[0].name.endswith(("add_", "iadd")) else "sub_"
+
+        def step(v, acc=acc, mname=mname):
+            tensor_method(it, acc, mname, [v], {}, node)
+
+        it.run_generator(args[1], step, node)
+        return acc
     if n == "functools.reduce" and len(args) >= 2:
         items = it.concrete_items(args[1])
         if items is not None and (len(args) > 2 or items):
@@ -545,6 +557,18 @@ def _call_ext(it, name, args, kwargs, node):
                 lv.obj.comp_iter = rng
                 lv.obj.piece_ends = (rng[3], rng[2])
                 return lv
+    if n == "itertools.product" and args and not kwargs:
+        cols = [it.concrete_items(a) for a in args]
+        if all(c is not None for c in cols):
+            total = 1
+            for c in cols:
+                total *= max(len(c), 1)
+            if total <= 256:
+                import itertools as _it
+
+                r_ = VIter([VTuple(list(combo)) for combo in _it.product(*cols)])
+                r_.one_shot = True
+                return r_
     if n == "itertools.repeat" and len(args) == 1:
         u = VUnknown("repeat", "iter")
         u.endless = True
@@ -952,6 +976,8 @@ def _call_torch(it, f, args, kwargs, node):
                 t = T.stack0(*[_strip_unsq0(x) for x in ts])
             else:
                 t = T.app(f, tuple(ts), ax)
+        if not is_none(kwargs.get("out")):
+            return write_out(it, kwargs.get("out"), t, shape, node, f)  # the pieces written into the given buffer
         r = it.fresh(t, shape, "tensor", node)
         if f == "cat":
             r.obj.segments = [(x.term, (x.shape[ax + rank] if x.shape is not None and rank is not None and ax is not None else UNK)) for x in items]
@@ -1456,6 +1482,22 @@ def call_builtin(it, f, args, kwargs, node):
         elif args and isinstance(args[0], VUnknown):
             d = it.new_dict({})
             d.obj.extra_unknown = True
+        elif args:
+            # an iterable of (key, value) pairs: the entries when every pair and key is known, otherwise entries nobody followed
+            from .values import dict_key
+
+            d = it.new_dict({})
+            pairs = it.concrete_items(args[0])
+            if pairs is None:
+                d.obj.extra_unknown = True
+            else:
+                for pr in pairs:
+                    two = it.concrete_items(pr) if isinstance(pr, (VTuple, VList)) else None
+                    okk, kk = dict_key(two[0]) if two is not None and len(two) == 2 else (False, None)
+                    if not okk:
+                        d.obj.extra_unknown = True
+                        continue
+                    d.obj.items[kk] = two[1]
         else:
             d = it.new_dict({})
         star = kwargs.pop("**", None) if "**" in kwargs else None
